@@ -44,6 +44,33 @@ def frame (code : List Char) (s : List Char) (minus : Bool) (k : Nat) : List Cha
 def sixframes (code : List Char) (s : List Char) : List (Bool × Nat × List Char) :=
   [false, true].flatMap fun m => [0, 1, 2].map fun k => (m, k, frame code s m k)
 
+/-! ### beyond upper-case TCAG: RNA, lower case, gapped / ambiguous codons (per implementation)
+
+`old` (`genetic_code.GeneticCode.translate`): every codon is first normalised (ASCII upper case, `U → T`); a codon
+that is then one of the 64 canonical codons gives its table entry, anything else gives `'X'` (also `---`).
+`new` (`new_genetic_code.GeneticCode.translate` on a `str`): no normalisation; a canonical codon gives its table entry;
+a codon made only of `T C A G -` with at least one gap gives `'-'`; anything else (ambiguity codes, `?`, `U`, lower
+case) gives `'X'`. -/
+
+/-- ASCII `str.upper()` on one character: `a`–`z` (code points 97–122) move 32 code points down -/
+def asciiUpper (c : Char) : Char :=
+  if 97 ≤ c.toNat ∧ c.toNat ≤ 122 then Char.ofNat (c.toNat - 32) else c
+
+def normOld (c : Char) : Char :=
+  let u := asciiUpper c
+  if u = 'U' then 'T' else u
+
+def translateOld (code : List Char) (s : List Char) : List Char := translate code (s.map normOld)
+
+def aaNew (code : List Char) (a b c : Char) : Char :=
+  if a ∈ bases ∧ b ∈ bases ∧ c ∈ bases then aa code [a, b, c]
+  else if (a ∈ bases ∨ a = '-') ∧ (b ∈ bases ∨ b = '-') ∧ (c ∈ bases ∨ c = '-') then '-'
+  else 'X'
+
+def translateNew (code : List Char) : List Char → List Char
+  | a :: b :: c :: rest => aaNew code a b c :: translateNew code rest
+  | _ => []
+
 /-! ### stop handling of `get_translation` on a canonical, gap-free sequence
 
 `trimStop`: a terminal stop (the last codon of a sequence whose length is a multiple of three) is removed;
